@@ -1,7 +1,7 @@
 CONSTANTS
   Files = {1, 2, 3, 4}
   MaxFiles = 4
-  Cmds = {"scan", "fix", "stdin", "list_some", "list_none", "scan_missing", "fix_missing"}
+  Cmds = {"scan", "fix", "stdin", "list_some", "list_none", "scan_missing", "fix_missing", "scan_good_missing", "fix_good_missing", "scan_good_noglob"}
   SchemeSels = {"none", "arg_minimal", "cfg_minimal"}
   Cfgs = {"ok"}
   Kinds = {"clean", "trig", "fixable", "perr", "undec"}
